@@ -477,6 +477,22 @@ int main(int argc, char **argv)
 		if (!ch)
 			die("operation on a closed channel", 0);
 		sscanf(ln, "%*s %lld %lld", &a, &b);
+		/* requests must stay inside the backing file at the block size the channel really has (a failed
+		 * set_blksize leaves the old one); anything else is refused here and logged as "skip" */
+		{
+			long long bsg = ch->block_size / GR, g0 = -1, len = 0;
+			if (!strcmp(op, "read") || !strcmp(op, "write")) {
+				g0 = a * bsg; len = b > 0 ? b * bsg : -b;
+			} else if (!strcmp(op, "wbyte")) {
+				g0 = a; len = b;
+			} else if (!strcmp(op, "zero") || !strcmp(op, "discard") || !strcmp(op, "readahead")) {
+				g0 = a * bsg; len = b * bsg;
+			}
+			if (g0 >= 0 && (len <= 0 || g0 + len > ng)) {
+				printf("{\"e\":\"skip\"}\n");
+				continue;
+			}
+		}
 		if (!strcmp(op, "read")) {
 			int cnt = b > 0 ? (int) b : (int) b * GR;
 			errcode_t rc;
